@@ -1205,6 +1205,8 @@ func replay(c *core.Ctx) {
 		}
 	case "files":
 		k.filesCase(cs.Seq)
+	case "after-failed-write":
+		k.afterFailedWrite()
 	default:
 		c.HarnessError("unknown case kind %q", cs.Kind)
 	}
